@@ -85,11 +85,10 @@ pub fn eval_detect(sc: &Scenario) -> CaseResult {
                 continue;
             }
             let mut relevant: Vec<&&(u64, Ev)> = evs.iter().filter(|e| if let Ev::Desync { addr, .. } = e.1 { i == who || addr == peer_addr(who) } else { false }).collect();
-            // several events raised by one call come in no particular order: judge the earliest call's lowest frame
-            if let Some(t0) = relevant.first().map(|e| e.0) {
-                relevant.retain(|e| e.0 == t0);
-                relevant.sort_by_key(|e| if let Ev::Desync { frame, .. } = e.1 { frame } else { 0 });
-            }
+            // reports can overtake each other on a jittery link and several events of one call come in
+            // ascending frame order only per peer: judge the lowest frame ever reported (all reports arrive:
+            // the link is loss-free), which must be the first divergent report
+            relevant.sort_by_key(|e| if let Ev::Desync { frame, .. } = e.1 { frame } else { 0 });
             match relevant.first() {
                 None => {
                     r.violation = Some(("C09.missed".into(), format!("peer{i}: state of peer{who} diverges from frame {f} on (interval {interval}) but no DesyncDetected although confirmed frame reached {}", p.last_conf)));
@@ -136,7 +135,7 @@ pub fn run_prop(ctx: &Ctx) -> PropReport {
         || gen_false_alarm(tier), ctx.tier.pick(5000, 20000), eval_false_alarm));
     let stride = ctx.tier.pick(2u64, 1u64);
     rep.part(|| run_enum(ctx, "detection",
-        "enumeration: interval 1..=12 x divergence frame F 1..=200 x which peer diverges (every 2nd case quick, all thorough), 2-3 peers, seeded window/delay/latency jitter/duplication, loss-free (reports are not retransmitted), non-sparse: every peer of a differing pair gets DesyncDetected whose first frame lies in [F, F+2*interval] once its confirmed frame has passed F+4*interval, and the event's two checksums are the ones the two games really saved for that frame; no event before F or between peers that agree",
+        "enumeration: interval 1..=12 x divergence frame F 1..=200 x which peer diverges (every 2nd case quick, all thorough), 2-3 peers, seeded window/delay/latency jitter/duplication, loss-free (reports are not retransmitted), non-sparse: every peer of a differing pair gets DesyncDetected, the lowest reported frame lies in [F, F+2*interval] once its confirmed frame has passed F+4*interval, and the event's two checksums are the ones the two games really saved for that frame; no event before F or between peers that agree",
         NDETECT / stride, move |i| detect_case(i * stride, seed), eval_detect, ctx.tier == Tier::Thorough));
     rep.floors.push(("false_alarm".into(), 0.3));
     rep.assumptions = vec!["the corrupted game diverges deterministically (every simulation of a frame >= F produces the same, different state), as a real desync bug would".into()];
